@@ -64,6 +64,7 @@ def make_engine_class():
     class TinyEngine(Engine):
         lazy = False
         validations = 0
+        kill_kind = "kill"
         kill_at = None  # raise ProcessKilledException inside the iteration whose batch index equals kill_at
         seen = None
 
@@ -78,6 +79,8 @@ def make_engine_class():
                 type(self).seen.append([int(i) for i in data["idx"]])
             if type(self).kill_at is not None and first == type(self).kill_at:
                 type(self).kill_at = None
+                if type(self).kill_kind == "runtime":
+                    raise RuntimeError("simulated failure inside the iteration")
                 raise ProcessKilledException(2, "SIGINT")
             w = self.model.w
             loss = (w * data["g"].to(w.dtype).mean()).sum()
@@ -139,7 +142,7 @@ def make_cfg(num_iterations, gradient_steps=1, gradient_clipping=0.0, checkpoint
     return cfg
 
 
-def train(exp_dir, grads, batches, num_iterations, k=1, clip=0.0, lr=0.5, opt="sgd", sched=None, resume=False, kill_at=None, w0=0.0, checkpoint_steps=10**9, seen=None, momentum=0.0, lazy_batches=False, validation_steps=None, extra_model=False, stale_grads=None):
+def train(exp_dir, grads, batches, num_iterations, k=1, clip=0.0, lr=0.5, opt="sgd", sched=None, resume=False, kill_at=None, w0=0.0, checkpoint_steps=10**9, seen=None, momentum=0.0, lazy_batches=False, validation_steps=None, extra_model=False, stale_grads=None, kill_kind="kill"):
     """Run Engine.train once. Returns dict(w, lr_last_epoch, exited, lrs).
 
     sched: None -> LambdaLR with factor 2^-(epoch // 3); or a callable (optimizer) -> scheduler.
@@ -178,6 +181,7 @@ def train(exp_dir, grads, batches, num_iterations, k=1, clip=0.0, lr=0.5, opt="s
     old = E.ConcatDatasetBatchSampler
     E.ConcatDatasetBatchSampler = _FixedBatches
     TinyEngine.kill_at = kill_at
+    TinyEngine.kill_kind = kill_kind
     TinyEngine.lazy = lazy_batches
     _FixedBatches.start = 0
     TinyEngine.seen = seen
@@ -193,6 +197,10 @@ def train(exp_dir, grads, batches, num_iterations, k=1, clip=0.0, lr=0.5, opt="s
             eng.train(optimizer, scheduler, [_GradDataset(grads)], pathlib.Path(exp_dir), validation_datasets=vds, resume=resume, num_workers=0)
         except SystemExit as e:
             exited = e.code
+        except RuntimeError as e:
+            if kill_kind != "runtime" or "simulated failure" not in str(e):
+                raise
+            exited = "runtime-error"
     finally:
         E.ConcatDatasetBatchSampler = old
         TinyEngine.kill_at = None
